@@ -120,7 +120,7 @@ func (p *SyncedPool) GetUnderlying(name string) (kvdb.Store, error) {
 	}
 
 	wrapper.Flushable = p.getDB(name)
-	db, err := wrapper.Flushable.initUnderlyingDb()
+	db, err := wrapper.Flushable.InitUnderlyingDb()
 	if err != nil {
 		return nil, err
 	}
